@@ -192,9 +192,19 @@ def build_scratch(dest, harness_files=(), consts=None, tv=False):
         if not hits:
             raise EncodingError("switch %s not found in the encoding" % cfgname)
         info["consts"][name] = {"original": 0, "encoded": 1}
+    # R5 layout-only rewrite: explicit u8 tag for GgrsError (Kani 0.68 crashes on the niche-encoded discriminant of
+    # Result<Session, GgrsError>; repr(u8) changes the memory layout only, never the meaning of any operation)
+    if consts.get("REPR_U8_ERROR"):
+        p = os.path.join(crate, "src", "error.rs")
+        text = open(p).read()
+        if "\npub enum GgrsError {" not in text:
+            raise EncodingError("R5: anchor 'pub enum GgrsError {' not found in src/error.rs")
+        text = text.replace("\npub enum GgrsError {", "\n#[repr(u8)]\npub enum GgrsError {", 1)
+        open(p, "w").write(text)
+        info["consts"]["REPR_U8_ERROR"] = {"original": 0, "encoded": 1}
     # R3 constants
     for name, val in consts.items():
-        if name.startswith("CFG_"):
+        if name.startswith("CFG_") or name == "REPR_U8_ERROR":
             continue
         if name not in CONST_ANCHORS:
             raise EncodingError("R3: unknown constant %s" % name)
